@@ -29,6 +29,9 @@ def generate(tier, seed, shard, nshards):
         cd = dyn_circuit(rng)
         if cd is not None:
             yield {'kind': 'model', 'circuit': cd}
+            if rng.random() < 0.35:
+                from .C10 import swept
+                yield {'kind': 'model', 'circuit': swept(rng, cd), 'sweep_of_previous': True}
     for _ in range(N_SIM[tier] // nshards):
         c = C12.transient_case(rng, settle=False)
         if c is None:
@@ -39,6 +42,9 @@ def generate(tier, seed, shard, nshards):
                 spec['shape'] = 'triangle'
                 spec['points'] = [(0, 0.0), (2, 0.0), (n // 6, lv), (n // 3, 0.0), (n, 0.0)]
         yield {'kind': 'sim', **c}
+        if rng.random() < 0.35:
+            from .C10 import swept
+            yield {'kind': 'sim', **{**c, 'circuit': swept(rng, c['circuit'])}, 'sweep_of_previous': True}
 
 
 def check_matrix(ctx, prefix, cd, A, cv, lv):
@@ -77,6 +83,8 @@ def judge(case, ctx, prefix='C11'):
         ctx.violation(f'{prefix}/model-construction-raised/{built.key}', built.text, {})
         return
     circ, net, ssm, cv, lv = built
+    if case.get('sweep_of_previous'):
+        ctx.count('value_sweeps')
     check_matrix(ctx, prefix, cd, ssm.A, cv, lv)
     if case['kind'] == 'model':
         ctx.evaluated(circdesc.signature(cd, order_class(cd)), True)
